@@ -23,6 +23,7 @@ struct tlog {
     int status[4];
     int tid[4];
     uint64_t when[4];
+    int pre_release[4]; /* invoked before any owner had begun to release the scheduler */
 };
 static struct tlog tl[NT];
 static int run_collect_seq[NT]; /* schedule point at which the scheduler thread took its queue lock before RUNning task i */
@@ -40,6 +41,10 @@ static int ran_flag;
 static int reentrant_mode; /* 0 none; 1: task 0, when RUN, schedules task 1 now; 2: task 0, when RUN, cancels task 2 */
 static int reentrant_done;
 static int release_called; /* set by the owner immediately before its final aws_thread_scheduler_release */
+static void do_release(void) {
+    release_called = 1; /* from here on pending tasks may legitimately be cancelled by the shutdown */
+    aws_thread_scheduler_release(ts);
+}
 static void task_fn(struct aws_task *t, void *arg, enum aws_task_status status) {
     int i = (int)(intptr_t)arg;
     (void)t;
@@ -55,12 +60,19 @@ static void task_fn(struct aws_task *t, void *arg, enum aws_task_status status) 
         reentrant_done = 1;
         aws_thread_scheduler_schedule_now(ts, &task[1]);
     }
+    /* mode 4: task 2, whenever its cancellation is delivered (by the scheduler thread or by the shutdown - the callback cannot
+     * tell), cancels its companion timer, task 1 */
+    if (i == 2 && status == AWS_TASK_STATUS_CANCELED && reentrant_mode == 4 && !reentrant_done) {
+        reentrant_done = 1;
+        aws_thread_scheduler_cancel_task(ts, &task[1]);
+    }
     struct tlog *l = &tl[i];
     if (status == AWS_TASK_STATUS_RUN_READY && !run_collect_seq[i]) run_collect_seq[i] = vs_last_lock_seq(vs_current_tid());
     if (l->n < 4) {
         l->status[l->n] = (int)status;
         l->tid[l->n] = vs_current_tid();
         l->when[l->n] = vs_now_ns();
+        l->pre_release[l->n] = !release_called;
     }
     l->n++;
     if (after_release) invoked_after_release++;
@@ -115,6 +127,11 @@ static void check_task(int i, int handed_over, int cancel_requested) {
      * execution, read from the scheduler's event sequence) */
     if (l->status[0] == AWS_TASK_STATUS_RUN_READY && cancel_done_seq[i] && run_collect_seq[i] && cancel_done_seq[i] < run_collect_seq[i] && l->tid[0] == 1)
         vs_fail("ran-although-cancel-was-queued", "task %d ran although its cancellation had been queued (cancel returned at point %d) before the scheduler thread collected its queues (point %d) for that run", i, cancel_done_seq[i], run_collect_seq[i]);
+    /* 'cancelled' status is for a task that was cancelled or was still pending at the last release: a CANCELED call that
+     * arrives before any release has begun, for a task nobody cancelled, answers somebody else's cancel request (added after
+     * a seeded change in the heap's handle bookkeeping that made cancel(B) take A out) */
+    if (!cancel_requested && l->status[0] == AWS_TASK_STATUS_CANCELED && l->pre_release[0])
+        vs_fail("cancelled-without-request", "task %d was invoked with CANCELED although nobody cancelled it and no release of the scheduler had begun", i);
     if (l->n == 1) return;
     /* DESIGN §6: RUN first, then the acknowledgement of a cancel request that arrived after the run */
     if (cancel_requested && l->n == 2 && l->status[0] == AWS_TASK_STATUS_RUN_READY && l->status[1] == AWS_TASK_STATUS_CANCELED) return;
@@ -123,7 +140,7 @@ static void check_task(int i, int handed_over, int cancel_requested) {
 
 static void finish(const int *handed, const int *cancelled) {
     /* final release: must return only after everything was invoked and the scheduler thread exited */
-    aws_thread_scheduler_release(ts);
+    do_release();
     after_release = 1;
     VS_CHECK(vs_threads_unfinished() == 0, "thread-alive-after-release", "%d thread(s) still running after the last release returned", vs_threads_unfinished());
     /* S9: task 0 cancels task 2 from the scheduler thread iff it ran - only known now */
@@ -224,7 +241,7 @@ static void *s7_a(void *arg) {
     (void)arg;
     aws_thread_scheduler_acquire(ts);
     aws_thread_scheduler_schedule_now(ts, &task[0]);
-    aws_thread_scheduler_release(ts);
+    do_release();
     return NULL;
 }
 static void *s7_b(void *arg) {
@@ -289,7 +306,7 @@ static void s9(void) {
  * releases is the last one and does the shutdown, once (added after a seeded change in aws_ref_count_release) */
 static void *s10_c(void *arg) {
     (void)arg;
-    aws_thread_scheduler_release(ts);
+    do_release();
     return NULL;
 }
 static void s10(void) {
@@ -298,7 +315,7 @@ static void s10(void) {
     aws_thread_scheduler_schedule_now(ts, &task[0]);
     pthread_t a;
     pthread_create(&a, NULL, s10_c, NULL);
-    aws_thread_scheduler_release(ts); /* races the client's release */
+    do_release(); /* races the client's release */
     pthread_join(a, NULL);
     after_release = 1;
     VS_CHECK(vs_threads_unfinished() == 0, "thread-alive-after-release", "%d thread(s) still running after both references were released", vs_threads_unfinished());
@@ -359,7 +376,7 @@ static void s13(void) {
     pthread_mutex_unlock(&hm);
     int h[NT] = {0, reentrant_done, 1}, c[NT] = {0, 0, 1};
     release_called = 1;
-    aws_thread_scheduler_release(ts);
+    do_release();
     after_release = 1;
     h[1] = reentrant_done;
     VS_CHECK(vs_threads_unfinished() == 0, "thread-alive-after-release", "%d thread(s) still running after the last release returned", vs_threads_unfinished());
@@ -378,6 +395,48 @@ static void s14(void) {
     pthread_mutex_unlock(&hm);
     int h[NT] = {1, 0, 0}, c[NT] = {0, 0, 0};
     finish(h, c);
+}
+
+/* S16: two far-future tasks, the later one scheduled first (so that the second rises past it in the scheduler's heap), then the
+ * nearer one is cancelled: exactly that one gets CANCELED, the other stays pending until the release */
+static void s16(void) {
+    setup();
+    uint64_t now = 0;
+    aws_high_res_clock_get_ticks(&now);
+    task_time[1] = now + 7200ull * 1000000000ull;
+    task_time[2] = now + 3600ull * 1000000000ull;
+    aws_thread_scheduler_schedule_future(ts, &task[1], task_time[1]);
+    aws_thread_scheduler_schedule_future(ts, &task[2], task_time[2]);
+    pthread_mutex_lock(&hm); /* points at which the scheduler thread may move both into its heap */
+    pthread_mutex_unlock(&hm);
+    aws_thread_scheduler_cancel_task(ts, &task[2]);
+    cancel_done_seq[2] = vs_seq_now();
+    pthread_mutex_lock(&hm); /* ... and deliver the cancellation before the release begins */
+    pthread_mutex_unlock(&hm);
+    int h[NT] = {0, 1, 1}, c[NT] = {0, 0, 1};
+    finish(h, c);
+}
+
+/* S17: a task's CANCELED call cancels the task's companion timer on the same scheduler - also when that call is made by the
+ * shutdown itself, because the cancellation was still queued at the last release.  Both tasks are invoked exactly once with
+ * CANCELED, the release returns, nothing leaks (added after a seeded change that delivered the shutdown's cancellations with
+ * the hand-over mutex held: the re-entrant cancel_task then dead-locks on it) */
+static void s17(void) {
+    setup();
+    reentrant_mode = 4;
+    uint64_t now = 0;
+    aws_high_res_clock_get_ticks(&now);
+    task_time[1] = now + 7200ull * 1000000000ull;
+    task_time[2] = now + 3600ull * 1000000000ull;
+    aws_thread_scheduler_schedule_future(ts, &task[1], task_time[1]);
+    aws_thread_scheduler_schedule_future(ts, &task[2], task_time[2]);
+    pthread_mutex_lock(&hm); /* the scheduler thread may or may not take them over first */
+    pthread_mutex_unlock(&hm);
+    aws_thread_scheduler_cancel_task(ts, &task[2]);
+    cancel_done_seq[2] = vs_seq_now();
+    int h[NT] = {0, 1, 1}, c[NT] = {0, 1, 1}; /* task 1: cancelled by task 2's callback, or still pending at the release - CANCELED either way */
+    finish(h, c);
+    VS_CHECK(reentrant_done, "task-lost", "task 2 was cancelled but its CANCELED call never happened");
 }
 
 /* S15: the second life of a task object.  T is scheduled for a far-future time and cancelled; after its CANCELED call the same
@@ -410,7 +469,7 @@ static void s15(void) {
     VS_CHECK(tl[0].n == first_n + 1 && tl[0].status[first_n] == AWS_TASK_STATUS_RUN_READY, "second-life", "second life of the task: %d invocation(s)", tl[0].n - first_n);
     VS_CHECK(tl[0].when[first_n] < far, "now-task-delayed-until-stale-time", "the re-used task was handed over with schedule_now at %llu but ran only at %llu, the time (%llu) it had been scheduled for in its first life",
              (unsigned long long)now, (unsigned long long)tl[0].when[first_n], (unsigned long long)far);
-    aws_thread_scheduler_release(ts);
+    do_release();
     after_release = 1;
     VS_CHECK(vs_threads_unfinished() == 0, "thread-alive-after-release", "%d thread(s) still running after the last release returned", vs_threads_unfinished());
     VS_CHECK(tl[0].n == first_n + 1, "invoked-twice", "task invoked %d times in its second life", tl[0].n - first_n);
@@ -444,6 +503,8 @@ int main(int argc, char **argv) {
         {.name = "S12-cancel-pulled-task-with-timed-queue", .run = s12, .bound_quick = 2, .bound_thorough = 3, .digest = user_digest},
         {.name = "S13-cancellation-callback-schedules-follow-up", .run = s13, .bound_quick = 2, .bound_thorough = 3, .digest = user_digest},
         {.name = "S14-only-task-parked-at-uint64-max", .run = s14, .bound_quick = 3, .bound_thorough = 4, .digest = user_digest},
+        {.name = "S16-cancel-the-nearer-of-two-timed-tasks", .run = s16, .bound_quick = 2, .bound_thorough = 3, .digest = user_digest, .no_timeouts = 1},
+        {.name = "S17-cancelled-task-cancels-its-companion-also-at-shutdown", .run = s17, .bound_quick = 2, .bound_thorough = 3, .digest = user_digest, .no_timeouts = 1},
         {.name = "S15-task-object-reused-after-cancel", .run = s15, .bound_quick = 2, .bound_thorough = 3, .digest = user_digest, .no_timeouts = 1}, /* time passes only when nobody can run */
         {.name = "S7-three-clients", .run = s7, .bound_quick = -1, .bound_thorough = 1, .digest = user_digest},
     };
